@@ -148,7 +148,7 @@ def run(chk):
         if r.get('harness_error'):
             raise RuntimeError('harness error on %s: %s %s' % (r['spec'], r['harness_error'], r.get('tb')))
         if r.get('construct_error'):
-            chk.violation('C08:constructor-raises', 'PIT() raises on a supported net: ' + r['construct_error'],
+            chk.violation('C08:' + pitcheck.raise_kind(r), 'PIT() raises on a supported net: ' + r['construct_error'],
                           dict(pitcheck.case_id(r), kind='net'))
             continue
         for a, head, rows in assigns:
